@@ -1026,6 +1026,18 @@ class Interp:
             lv = self.lvalue(sub)
             if lv[0] == 'sym':
                 return lv[1]
+            bl = getattr(self, 'byte_lists', None)
+            if bl and isinstance(lv[0], list) and id(lv[0]) in bl and isinstance(lv[1], int):
+                # typed access to a registered byte array (concrete linear memory): assemble the object from its bytes
+                ti_ = astdb.int_type_info(self.tu_desugar(_clean(qtype(n))).replace('const ', '').replace('volatile ', '').strip())
+                if ti_ is not None and ti_[0] > 8:
+                    nb = ti_[0] // 8
+                    bs_ = [self.load(lv[0], lv[1] + i, n) for i in range(nb)]
+                    if all(isinstance(b_, int) for b_ in bs_):
+                        v_ = int.from_bytes(bytes(b_ & 0xFF for b_ in bs_), bl[id(lv[0])])
+                        if ti_[1] and v_ >> (ti_[0] - 1):
+                            v_ -= 1 << ti_[0]
+                        return v_
             v = self.load(lv[0], lv[1], n)
             if isinstance(lv[0], str) and isinstance(v, int) and v >= 128 and getattr(self, 'char_signed', True):
                 # a byte of a host string read through a plain/signed char lvalue: the analysed target's char is signed
@@ -1139,6 +1151,13 @@ class Interp:
                 self.event('store-sym', (lv[1], _hashable(v)), n)
                 return v
             v = self.copy_val(v)
+            bl = getattr(self, 'byte_lists', None)
+            if bl and isinstance(lv[0], list) and id(lv[0]) in bl and isinstance(lv[1], int) and isinstance(v, int):
+                ti_ = astdb.int_type_info(self.tu_desugar(_clean(qtype(l))).replace('const ', '').replace('volatile ', '').strip())
+                if ti_ is not None and ti_[0] > 8:
+                    for i_, b_ in enumerate((v & ((1 << ti_[0]) - 1)).to_bytes(ti_[0] // 8, bl[id(lv[0])])):
+                        self.store(lv[0], lv[1] + i_, b_, n)
+                    return v
             self.store(lv[0], lv[1], v, n)
             return v
         if op == ',':
